@@ -48,6 +48,12 @@ class Tok:
     def __hash__(self):
         return 0
 
+    def __bool__(self):
+        # identity 0 stands for the falsy token (the empty prefix "")
+        if self.k != 0:
+            return True
+        return False
+
 
 def _two_way(store):
     pairs = list(store.namespaces())
